@@ -184,7 +184,7 @@ theorem constructed_refused_iff (spec : Constr) (mapping : CVal) (hw : spec.wf =
         exact absurd hg hl
       · simp [htr] at hg
 
-/-- a legacy `sizeSpec` never displaces the subtypeSpec (fix 9bc6b88): whatever the moved
+/-- a legacy `sizeSpec` never displaces the subtypeSpec (fixes 9bc6b88, aaa101a, 4027db3): whatever the moved
     constraint set admits, the declared subtypeSpec admits -/
 theorem sizeSpec_keeps_subtypeSpec (subtypeSpec sizeSpec : Constr) (i : Option Nat) (v : CVal)
     (h : den (moveSizeSpec subtypeSpec sizeSpec) i v) : den subtypeSpec i v := by
@@ -194,7 +194,7 @@ theorem sizeSpec_keeps_subtypeSpec (subtypeSpec sizeSpec : Constr) (i : Option N
   · by_cases h2 : (!subtypeSpec.truthy) = true
     · simp only [h1, h2, if_true, Bool.false_eq_true, if_false] at h
       exact ((derive_den _ _ i v).mp h).1
-    · by_cases h3 : (!Constraint.isSuperTypeOf (.mk .intersection (.con sizeSpec .nil)) subtypeSpec) = true
+    · by_cases h3 : (!imposedBy sizeSpec subtypeSpec) = true
       · simp only [h1, h2, h3, if_true, Bool.false_eq_true, if_false] at h
         rw [den_intersection] at h
         exact h.1
@@ -239,6 +239,11 @@ example : encodeGate tItem (.record [("id", .int 1)]) = .accept := by decide
 example : encodeGate tItem (.record [("id", .int 1), ("name", .bytes [120])]) = .reject := by decide
 example : encodeGate (intersection [valueSize 1 2]) (.coll [.int 0, .int 1, .int 2]) = .reject := by decide
 example : typed tItem (.record [("id", .int 1)]) = true ∧ tItem.wf = true := by decide
+/-- `==` ignores the class, the imposed-by test does not (fix 0512f2c) -/
+example : isSuperTypeOf (intersection [singleValue [.int 1, .int 5]]) (intersection [valueRange 1 5]) = true := by decide
+example : imposedBy (singleValue [.int 1, .int 5]) (intersection [valueRange 1 5]) = false := by decide
+example : moveSizeSpec (exclusion [valueSize 3 4]) (intersection [valueSize 3 4])
+    = intersection [exclusion [valueSize 3 4], intersection [valueSize 3 4]] := by decide
 example : moveSizeSpec (intersection [valueSize 1 1]) (intersection [valueSize 1 5])
     = intersection [intersection [valueSize 1 1], intersection [valueSize 1 5]] := by decide
 /-- assignment of a derived, explicitly tagged value to a field of the parent type -/
